@@ -702,6 +702,7 @@ class DiHypergraph:
                         self._node_attr[n] = self._node_attr_dict_factory()
                     self._node[n]["out"].add(idx)
                 self._edge_attr[idx] = self._edge_attr_dict_factory()
+                self._edge_attr[idx].update(attr)
 
                 for n in head:
                     if n not in self._node:
